@@ -432,11 +432,17 @@ fn rng_u64_det(i: usize, j: usize) -> u64 {
 fn observe(o: &mut Outcome, f: impl FnOnce()) {
     crate::fm::reset_ops();
     crate::spy::track_start(1 << 33); // 8 GiB: a single larger request is refused (-> abort, seen by the parent)
+    let _ = crate::spy::take_overruns();
     let r = no_panic(f);
     o.mem = crate::spy::track_stop();
     o.steps = crate::fm::ops();
     if let Err(p) = r {
         o.panic = Some(p);
+    }
+    // the red zone behind every heap block released during the call was intact
+    let (overruns, size) = crate::spy::take_overruns();
+    if overruns > 0 && o.panic.is_none() {
+        o.panic = Some(format!("heap overrun: {overruns} heap block(s) were written past their end (last one a block of {size} bytes)"));
     }
 }
 
